@@ -70,3 +70,32 @@ def equal_terms(a, b):
 def diff_terms(a, b):
     keys = sorted(set(a) | set(b))
     return {k: (a.get(k, 0), b.get(k, 0)) for k in keys if a.get(k, 0) != b.get(k, 0)}
+
+
+def count_dp(c, n):
+    """Number of words of size n of the class by dynamic programming over the
+    last max(len(pattern))-1 letters (independent of the enumeration above;
+    reaches n = 14 on three letters)."""
+    alphabet = tuple(c.alphabet)
+    patterns = tuple(str(p) for p in c.patterns)
+    prefix = str(c.prefix)
+    if "" in patterns or any(p in prefix for p in patterns):
+        return 0
+    if c.just_prefix:
+        return 1 if n == len(prefix) else 0
+    if n < len(prefix) or (getattr(c, "strict", False) and n == len(prefix)):
+        return 0
+    keep = max([len(p) for p in patterns] + [1]) - 1
+    state = prefix[max(0, len(prefix) - keep) :] if keep else ""
+    cur = {state: 1}
+    for _ in range(n - len(prefix)):
+        nxt = {}
+        for s, k in cur.items():
+            for a in alphabet:
+                w = s + a
+                if any(w.endswith(p) for p in patterns):
+                    continue
+                t = w[max(0, len(w) - keep) :] if keep else ""
+                nxt[t] = nxt.get(t, 0) + k
+        cur = nxt
+    return sum(cur.values())
